@@ -198,6 +198,13 @@ def grid(ctx):
     for c in cfgs[:4]:
         must += [(c, (7, True, [])), (c, (8, True, [])), (c, (7, True, [b"k", b"j"])), (c, (8, True, [b"k"])), (c, (10, True, [], None)), (c, (10, True, [b"k"], None)),
                  (c, (7, False, [])), (c, (10, False, [], None)), (c, (1, [], 0, None, None))]
+    # batches of hundreds of keys, one illegal key late in the batch (nothing at all may be written), and the same batches all legal
+    big = [(b"k%d" % i, b"v") for i in range(150)]
+    for c in cfgs[:2] + [x for x in cfgs if x["prefix"] == b"p:"][:2]:
+        for at in (100, 120, 149):
+            bad = big[:at] + [(b"bad key", b"v")] + big[at:]
+            must += [(c, (1, bad, 0, None, None)), (c, (1, bad, 0, True, None)), (c, (7, False, [k for k, _ in bad])), (c, (10, False, [k for k, _ in bad], None))]
+        must += [(c, (1, big + [(b"j%d" % i, b"w") for i in range(101)], 0, None, None)), (c, (7, False, [k for k, _ in big])), (c, (10, False, [k for k, _ in big], True))]
     # commands that take no key: whatever the key prefix, their words go out as given
     for c in cfgs:
         if c["enc"] == 0 and c["serde"] == 0 and c["unicode"] is False:
